@@ -219,7 +219,7 @@ class Schema(dict, metaclass=LogicalMeta):
     # coerce_properties need to separate from set_attributes and execute by order
     # because the dependencies that the property need may not be set during one-time loop
     # (which is guarantee by the field orders, and consider not reliable)
-    def __coerce_property__(self, field: ParserField, context: RuntimeContext):
+    def __coerce_property__(self, field: ParserField, context: RuntimeContext, _seen: set = None):
         if field.always_no_output(context.options):
             return
 
@@ -264,6 +264,14 @@ class Schema(dict, metaclass=LogicalMeta):
                 super().__delitem__(field.name)
             if field.attname in self.__dict__:
                 self.__dict__.pop(field.attname)
+
+        if field.dependants:
+            # the properties computed from this property follow it
+            _seen = (_seen or set()) | {field.attname}
+            for dep in field.dependants:
+                dep_field = self.__parser__.get_field(dep)
+                if dep_field and dep_field.property and dep_field.attname not in _seen:
+                    self.__coerce_property__(dep_field, context=context, _seen=_seen)
 
         return value
 
